@@ -19,5 +19,6 @@ CmdsABX == {"A", "B", "X"}
 CmdsAX == {"A", "X"}
 RefusedDef == {"X"}
 CmdsAC == {"A", "C"}
+CmdsRQ == {"R", "Q"}
 CmdsCR == {"C", "R"}
 =============================================================================
